@@ -11,7 +11,8 @@ M: TLC checks the statement after every operation of every history within the bo
    cleanup unless it is unassigned and cleaned up; an index run makes it visible at the indexed
    version; unassigned repositories are invisible after cleanup; what is visible is the last indexed
    version).  Two deviations of the code that the faithful model reproduces are named allowances
-   (ZoektSeqOps!Known); the strict model is checked to fail exactly because of them (thorough).
+   (ZoektSeqOps!Known); the strict model is checked to fail because of them, and the model of the
+   proposed patch to need no allowance for the first (thorough).
 R: TLC prints one script per explored transition (operation history from a warm start + predicted
    state) and, in the thorough tier, seeded random walks over 3 repositories.  The scripts are
    executed as a tree on REAL code in a scratch index directory (real Builder, real Server.merge
@@ -143,9 +144,10 @@ def tla_set(xs):
     return "{%s}" % ", ".join(str(x) for x in xs)
 
 
-def defines(repos, depth, starts, emit, strict=False, ticks=1, crash=1):
+def defines(repos, depth, starts, emit, strict=False, ticks=1, crash=1, fix=False):
     return {"Repos": tla_set(range(1, repos + 1)), "MaxVersion": 2, "MaxDepth": depth, "MaxTick": ticks,
-            "MaxCrash": crash, "Starts": tla_set(starts), "Strict": "TRUE" if strict else "FALSE", "Emit": '"%s"' % emit}
+            "MaxCrash": crash, "Starts": tla_set(starts), "Strict": "TRUE" if strict else "FALSE",
+            "Fix": "TRUE" if fix else "FALSE", "Emit": '"%s"' % emit}
 
 
 def scripts_of(res, repos, origin):
@@ -357,12 +359,16 @@ def body(ctx, rng, bg, th):
         # three repositories
         ctx.model_check("ZoektSeq", "ZoektSeq_mc.cfg", name="tlc_three", workers=4, timeout=3000,
                         defines=defines(3, 5, [1, 2, 4], "none"))
-        # the allowances are not vacuous: without them the statement fails, through the named deviation
-        bad = ctx.tlc("ZoektSeq", "ZoektSeq_mc.cfg", name="tlc_strict", workers=1, timeout=3000, count=False,
-                      defines=defines(2, 2, [4], "none", strict=True))
-        if bad.ok or bad.invariant != "Holds":
-            raise vk.Inconclusive("the strict model (no allowance for the inherited sidecar) was expected to violate "
-                                  "Holds: %s" % bad.log)
+        # the allowances are not vacuous: without them the statement fails, through the named deviations
+        for start, fix in ((4, False), (10, True)):
+            bad = ctx.tlc("ZoektSeq", "ZoektSeq_mc.cfg", name="tlc_strict", workers=1, timeout=3000, count=False,
+                          defines=defines(2, 2, [start], "none", strict=True, fix=fix))
+            if bad.ok or bad.invariant != "Holds":
+                raise vk.Inconclusive("the strict model (no allowances) was expected to violate Holds from warm "
+                                      "start %d: %s" % (start, bad.log))
+        # with the proposed patch (NOTES/SYS_proposed_fix.patch) the inherited sidecar needs no allowance
+        ctx.model_check("ZoektSeq", "ZoektSeq_mc.cfg", name="tlc_fix", workers=4, timeout=3000,
+                        defines=defines(2, 4, starts, "none", fix=True))
         # seeded random walks over three repositories
         walks = ctx.tlc("ZoektSeq", "ZoektSeq_mc.cfg", name="tlc_sim", simulate="num=40", depth=20, seed=ctx.seed,
                         timeout=3000, count=False, deadlock=False, defines=defines(3, 12, [1, 2], "sim", ticks=2))
